@@ -31,6 +31,7 @@ type State struct {
 	dirty     map[Atom]int64   // memory cell atoms -> version of their last write
 	loopEnter map[string]int64 // loop id -> version when the loop was entered from outside
 	inSaturate bool
+	fub        map[string]FBound // float-typed SSA values: known upper bound
 	loadMemo  map[string]Atom  // (opt-in) unresolved address -> atom of the last integer load, valid until the next store/call
 }
 
@@ -93,6 +94,12 @@ func (s *State) Clone() *State {
 	n.loopEnter = make(map[string]int64, len(s.loopEnter))
 	for k, v := range s.loopEnter {
 		n.loopEnter[k] = v
+	}
+	if len(s.fub) > 0 {
+		n.fub = make(map[string]FBound, len(s.fub))
+		for k, v := range s.fub {
+			n.fub[k] = v
+		}
 	}
 	if len(s.loadMemo) > 0 {
 		n.loadMemo = make(map[string]Atom, len(s.loadMemo))
@@ -970,4 +977,10 @@ func (s *State) SaturateCong() {
 			}
 		}
 	}
+}
+
+// FBound: an upper bound of a floating-point SSA value (x < Val if Strict, else x <= Val).
+type FBound struct {
+	Val    float64
+	Strict bool
 }
